@@ -270,6 +270,62 @@ func runC09(c *Ctx) {
 			c09Case(c, "shared-questions", m, sz, false, true)
 		}
 	}
+	// very small replies: no, one or two questions and one or two records in any one section, whose embedded names share a
+	// long suffix with the owner — what Pack decides about compressing such a message at all (isCompressible) must be what
+	// Truncate budgets with; sizes between the compressed and the uncompressed length
+	for i, n := 0, c.Scale(60, 900); i < n; i++ {
+		var labels []string
+		total := 0
+		for total < 150+r.Intn(80) {
+			l := strings.Repeat(string(rune('a'+r.Intn(26))), 1+r.Intn(40))
+			labels = append(labels, l)
+			total += len(l) + 1
+		}
+		suffix := strings.Join(labels, ".") + "."
+		m := new(dns.Msg)
+		m.Response = true
+		m.Id = uint16(r.Intn(65536))
+		nq := i % 3
+		for k := 0; k < nq; k++ {
+			m.Question = append(m.Question, dns.Question{Name: fmt.Sprintf("q%d.%s", k, suffix), Qtype: dns.TypeSOA, Qclass: 1})
+		}
+		var rrs []dns.RR
+		for k, nr := 0, 1+r.Intn(2); k < nr; k++ {
+			h := dns.RR_Header{Name: fmt.Sprintf("o%d.%s", k, suffix), Class: 1, Ttl: 60}
+			switch r.Intn(4) {
+			case 0:
+				h.Rrtype = dns.TypeSOA
+				rrs = append(rrs, &dns.SOA{Hdr: h, Ns: "ns." + suffix, Mbox: "h." + suffix, Serial: 1, Refresh: 2, Retry: 3, Expire: 4, Minttl: 5})
+			case 1:
+				h.Rrtype = dns.TypeMX
+				rrs = append(rrs, &dns.MX{Hdr: h, Preference: 10, Mx: "mx." + suffix})
+			case 2:
+				h.Rrtype = dns.TypeNS
+				rrs = append(rrs, &dns.NS{Hdr: h, Ns: "ns." + suffix})
+			default:
+				h.Rrtype = dns.TypeCNAME
+				rrs = append(rrs, &dns.CNAME{Hdr: h, Target: "c." + suffix})
+			}
+		}
+		sec := (i / 3) % 3
+		switch sec {
+		case 0:
+			m.Answer = rrs
+		case 1:
+			m.Ns = rrs
+		default:
+			m.Extra = rrs
+		}
+		if r.Chance(30) {
+			m.SetEdns0(1232, false)
+		}
+		c.Hit(fmt.Sprintf("few-items:nq=%d,sec=%d,rrs=%d", nq, sec, len(rrs)))
+		ul := len(mustPack(m, false))
+		pl := packedLen(m)
+		for _, sz := range []int{0, 512, 513, pl - 1, pl, pl + 1, (pl + ul) / 2, ul - 1, ul} {
+			c09Case(c, "few-items", m, sz, false, true)
+		}
+	}
 	// header, question and OPT record alone fill the budget to the octet, leave a few octets, or exceed it by a few: a
 	// long question name and an OPT record with a padding option; nothing else fits, the OPT record must stay
 	for i, n := 0, c.Scale(12, 200); i < n; i++ {
